@@ -493,3 +493,13 @@ fn c19_println_after_zombie_rows_scrolled_out() {
     mp.println("L0").unwrap();
     assert_eq!(term.contents(), "ne\nL0\nb:");
 }
+
+/// C09: the average rate reported for a finished (abandoned) bar does not count the position it started at.
+#[test]
+fn c09_abandoned_bar_that_started_at_a_position() {
+    let pb = ProgressBar::with_draw_target(Some(1_000_000_000), ProgressDrawTarget::hidden()).with_position(500_000_000);
+    std::thread::sleep(std::time::Duration::from_millis(100));
+    pb.inc(100);
+    pb.abandon();
+    assert!(pb.per_sec() < 10_000.0, "100 steps in 0.1 s reported as {} steps/s", pb.per_sec());
+}
